@@ -369,6 +369,42 @@ func TestCheck(t *testing.T) {
 	}
 	r.Exhaustive("grid of boundary values x every flag subset (date 2, roman 128, sem 2, size 4, uu 2) x prefix list (every single byte value for the listed flag subsets) x 23 spare capacities")
 
+	// Phase "fit": spare capacities chosen relative to the length L of the value's own text - the caller's buffer is a few bytes
+	// short of the text, exactly large enough, a few bytes larger, or has room for two - where a formatter that writes in place
+	// has to decide whether the text fits.
+	for _, pkg := range []string{"date", "roman", "sem", "size", "uu"} {
+		pkg := pkg
+		vals := values(pkg)
+		nf := flagCounts[pkg]
+		r.Phase("fit: "+pkg+": spare capacity L-3..L+3, 2L-1..2L+1, L+64 (L = length of the value's own text) x boundary values x flag words x 3 prefixes", func() {
+			r.Parallel(int64(len(vals)*nf), 1, func(w *vkit.W, lo, hi int64) {
+				for i := lo; i < hi; i++ {
+					base := vals[int(i)/nf]
+					base.Flags = int(i) % nf
+					if nf > 4 && !(base.Flags == 0 || base.Flags == 64 || base.Flags == 63 || base.Flags == 127 || base.Flags%17 == 1 || r.Thorough()) {
+						continue
+					}
+					own, err := base.call(nil)
+					if err != nil {
+						continue
+					}
+					L := len(own)
+					for _, p := range []string{"", "x=", "0123456789abcdef0123456789abcdef"} {
+						for _, sp := range []int{L - 3, L - 2, L - 1, L, L + 1, L + 2, L + 3, 2*L - 1, 2 * L, 2*L + 1, L + 64} {
+							if sp < 0 {
+								continue
+							}
+							c := base
+							c.Prefix, c.Spare = vkit.B(p), sp
+							judge(c, w)
+							w.EvalRandom(vkit.Hash64("fit", pkg, strconv.Itoa(int(i)), p, strconv.Itoa(sp)), nontrivial(c))
+						}
+					}
+				}
+			})
+		})
+	}
+
 	r.Phase("parsed: values parsed from a byte slice and formatted into that same storage (every keep length, several spare capacities, every flag word)", func() {
 		texts := map[string][]string{
 			"date":  {"2022-08-07", "20220807", "0001-01-01", "123456789-12-31", "9999-12-31"},
